@@ -9,8 +9,14 @@ spec->code: behaviours of the same machines (exhaustive for the smallest N, TLC 
            makerandCIJdegreesfixed through a scripted RandomState.
 code->spec: seeded real runs of all seven generators (draws recorded); spec/Trace_Generators.tla
            judges every returned value and replays the L2 operator forms on the recorded draws.
+scale:     a few seeded calls of every generator in the OTHER size regimes (scale_jobs): 130..450
+           nodes (256 / 512 for the power-of-two generators), K from tiny over 2^15, 2^16 to beyond
+           10^5 and to the full matrix, degree sequences of 130..330 nodes (hub degrees > 127, stub
+           counts > 2^15).  The whole returned matrix goes to TLC, which judges it by the same
+           clauses (count, diagonal, symmetry, 0/1, row/column sums, band occupancy).
 """
 import random
+import time
 
 import numpy as np
 
@@ -82,7 +88,7 @@ def exec_job(job):
     rec = dict(fn=fn, n=int(job.get("n", 0)), k=int(job.get("k", -1)), A=[], raised="", malformed="",
                rep_k=-1, mx_lvl=int(job.get("mx_lvl", 0)), sz_cl=int(job.get("sz_cl", 0)),
                inv=[int(x) for x in job.get("inv", [])], outv=[int(x) for x in job.get("outv", [])],
-               perm=[], draws=[], expect=job.get("expect") or [], script_status="none")
+               perm=[], draws=[], expect=job.get("expect") or [], script_status="none", perm_len=0)
     if job.get("script") is not None:
         r = GenScriptedRNG(job["script"], fallback_seed=job.get("seed", 1))
     else:
@@ -92,11 +98,14 @@ def exec_job(job):
     # how the caller types the integer parameters (job['ntype'], drawn): Python int or a numpy
     # integer (n = len(...) of an array, K = a count computed with numpy); same values
     I = {"int": int, "np64": np.int64, "np32": np.int32}[job.get("ntype", "int")]
+    scale = bool(job.get("scale"))
 
     def degvec(v):
         """a degree sequence as the caller holds it: int64 / int32 / float64 (column sums of a
         float matrix), contiguous or every second element of a larger vector; same values"""
         a = np.array(v, dtype=job.get("dtype", "int64"))
+        if [int(x) for x in a] != [int(x) for x in v]:
+            raise core.MachineryError("degree vector does not fit dtype %s" % job.get("dtype"))
         if job.get("layout") == "stride":
             big = np.zeros(2 * len(a), dtype=a.dtype)
             big[::2] = a
@@ -122,7 +131,10 @@ def exec_job(job):
         A = None
     rec["script_status"] = r.status()
     if len(r.perms) == 1:
-        rec["perm"] = r.perms[0]
+        rec["perm_len"] = len(r.perms[0])
+        # scale regime: a permutation of 10^4..10^5 cells is not kept (TLC replays the operator
+        # forms only where the draw script is short: outer band of a lattice, stub permutation)
+        rec["perm"] = r.perms[0] if not (scale and len(r.perms[0]) > 20000) else []
     rec["draws"] = list(r.ints)
     if A is None:
         return rec
@@ -303,6 +315,121 @@ def seeded_jobs(ctx):
     return jobs
 
 
+# ------------------------------------------------------------------ code -> spec, scale regime
+def scale_jobs(ctx):
+    """A handful of calls of EVERY generator in the size regimes the small-input families never
+    reach.  The regimes are those at which a narrow index / counter / accumulator type or a
+    tolerance in place of an exact comparison would first show:
+      node counts   > 127 (int8 indices), n*n > 2^15 (n >= 182) and > 2^16 (n >= 257) flat cell
+                    indices, n(n-1) >= 10^5 (n >= 331); 256 and 512 for the power-of-two generators
+      connections K tiny (0..3), a few thousand (> 2048: float16 integers end), just above 2^15 and
+                    2^16, 10^5..2*10^5 (relative tolerances of 1e-5 reach 1), full or nearly full
+      degrees       sequences of 130..330 nodes with hub degrees > 127 / > 255 and stub counts
+                    (sum of degrees) > 2^15; vectors typed uint8 / int16 where the values fit.
+    Rejection sampling (maketoeplitzCIJ) gets parameters for which a draw hits K exactly with
+    probability about 1/500 or better (flat or slowly decaying templates below the density at
+    which entries would exceed 1), i.e. seconds."""
+    rng = random.Random(ctx.seed * 104729 + 2020)
+    q = ctx.quick
+    jobs = []
+
+    def add(regime, **kw):
+        kw.setdefault("seed", rng.randrange(2 ** 31))
+        kw["src"] = "scale-" + regime
+        kw["scale"] = 1
+        kw["ntype"] = rng.choice(["int", "int", "np64", "np32"])
+        if kw["fn"] == "makerandCIJdegreesfixed":
+            top = max(kw["inv"] + kw["outv"] + [0])
+            kw["dtype"] = rng.choice(["int64", "int32", "float64", "int16"] + (["uint8"] if top <= 255 else []))
+            kw["layout"] = rng.choice(["C", "C", "stride"])
+        jobs.append(kw)
+
+    def node_counts():
+        """one node count per size regime"""
+        return [rng.randint(130, 181), rng.randint(182, 256), rng.randint(257, 330), rng.randint(331, 450)]
+
+    def k_regimes(m, lo=0):
+        """connection counts per regime for a generator that admits lo..m connections"""
+        d = {"tiny": lo + rng.randint(0, 3), "thousands": rng.randint(2049, 6000),
+             "2^15": rng.randint(32768, 33300), "2^16": rng.randint(65536, 66100),
+             "1e5": rng.randint(100000, 100000 + max(0, min(m - 100000, 60000))),
+             "2e5": rng.randint(200000, 200000 + max(0, min(m - 200000, 20000))),
+             "full": m - rng.randint(0, 2), "mid": rng.randint(lo + (m - lo) // 4, lo + 3 * (m - lo) // 4)}
+        return {r: k for r, k in d.items() if lo <= k <= m}
+
+    def pick(d, prefer):
+        """the preferred regime if this size admits it, else a drawn one"""
+        r = prefer if prefer in d else rng.choice(sorted(d))
+        return r, d[r]
+
+    reps = 1 if q else 6
+    for _ in range(reps):
+        # --- uniform random graphs and ring lattices: one call per node-count regime, K in the
+        # regime that this size newly admits, plus one drawn regime
+        for fn in ("makerandCIJ_dir", "makerandCIJ_und", "makeringlatticeCIJ"):
+            both = rng.randrange(4)      # quick tier: the second, drawn regime at one of the four sizes only
+            for t, (n, prefer) in enumerate(zip(node_counts(), ["tiny", "2^15", "2^16", "1e5"])):
+                m = n * (n - 1) // (2 if fn == "makerandCIJ_und" else 1)
+                d = k_regimes(m)
+                picks = [pick(d, prefer), pick(d, rng.choice(["full", "mid", "thousands", "2e5", "1e5"]))]
+                for reg, k in (picks if (not q or t == both) else picks[:1]):
+                    if fn == "makeringlatticeCIJ" and rng.random() < 0.3:
+                        k = min(m, 2 * n * max(1, k // (2 * n)))        # K on a band boundary: nothing to remove
+                    add(reg, fn=fn, n=n, k=k)
+        # --- toeplitz: (template width s, largest density for which no template entry exceeds 1)
+        for n, prefer in zip(node_counts() + [rng.randint(331, 450) for _ in range(4)] + [rng.randint(449, 450)],
+                             ["tiny", "2^15", "2^16", "1e5", "1e5", "1e5", "1e5", "1e5", "2e5"]):
+            m = n * (n - 1)
+            s, dens = rng.choice([(float(n), 0.7), (2.0 * n, 0.8), (1000.0, 0.8), (1e6, 0.995), (n / 2.0, 0.45)])
+            d = k_regimes(int(dens * m))
+            if prefer not in d:
+                s, dens = 1e6, 0.995
+                d = k_regimes(int(dens * m))
+            reg, k = pick(d, prefer)
+            add(reg, fn="maketoeplitzCIJ", n=n, k=k, s=s)
+        # --- hierarchical generators: 256 nodes (512: K beyond 10^5)
+        for n, prefer in [(256, "tiny"), (256, "2^15"), (256, "full"), (512, "1e5"), (512, rng.choice(["2e5", "2^16", "full"]))]:
+            lv = n.bit_length() - 1
+            sz = rng.randint(1, lv)
+            reg, k = pick(k_regimes(n * (n - 1), lo=n * (2 ** sz - 1)), prefer)
+            add(reg, fn="makeevenCIJ", n=n, k=k, sz_cl=sz)
+        for lvl, E in [(8, 1), (8, rng.choice([1.5, 2, 3])), (9, 1), (9, rng.choice([1.2, 1.5, 2]))]:
+            add("n=%d" % 2 ** lvl, fn="makefractalCIJ", mx_lvl=lvl, E=E, sz_cl=rng.randint(1, lvl))
+        # --- degree sequences (graphical by construction) of digraphs with 130+ nodes
+        kinds = ["sparse", "medium", "sparse-large", "stubs>2^15", "dense", "star", "hub+random", "circulant"]
+        if not q:
+            kinds += ["complete", "two-hubs"]
+        for kind in kinds:
+            nprng = np.random.RandomState(rng.randrange(2 ** 31))
+            n = {"sparse": rng.randint(130, 181), "medium": rng.randint(182, 256), "sparse-large": rng.randint(257, 330),
+                 "stubs>2^15": rng.randint(290, 330), "complete": rng.randint(130, 140),
+                 "dense": rng.randint(130, 170)}.get(kind, rng.randint(130, 300))
+            G = np.zeros((n, n), dtype=int)
+            if kind in ("sparse", "medium", "sparse-large", "stubs>2^15", "dense", "hub+random"):
+                p = {"sparse": 0.05, "medium": 0.25, "sparse-large": 0.02, "stubs>2^15": 0.42, "dense": 0.93,
+                     "hub+random": 0.03}[kind]
+                G = (nprng.random_sample((n, n)) < p).astype(int)
+            if kind in ("star", "hub+random", "two-hubs"):
+                for h in ((0,) if kind != "two-hubs" else (0, 1)):
+                    G[h, :] = 1
+                    if rng.random() < 0.6:
+                        G[:, h] = 1
+            elif kind == "circulant":
+                for off in rng.sample(range(1, n), rng.randint(1, 6)):
+                    for i in range(n):
+                        G[i, (i + off) % n] = 1
+            elif kind == "complete":
+                G[:, :] = 1
+            np.fill_diagonal(G, 0)
+            perm = nprng.permutation(n)
+            G = G[np.ix_(perm, perm)]
+            add(kind, fn="makerandCIJdegreesfixed", n=n, k=int(G.sum()),
+                inv=[int(x) for x in G.sum(axis=0)], outv=[int(x) for x in G.sum(axis=1)])
+    # the slow calls (rejection sampling, dense stub matching) first: better packing in the pool
+    jobs.sort(key=lambda j: 0 if j["fn"] == "maketoeplitzCIJ" else 1 if j["fn"] == "makerandCIJdegreesfixed" else 2)
+    return jobs
+
+
 def nontrivial_key(job, rec):
     """distinct non-trivial case: a call that returned and whose outcome depended on a draw."""
     if rec.get("timeout") or rec["raised"] or rec["malformed"]:
@@ -317,11 +444,14 @@ def nontrivial_key(job, rec):
         return None          # K on a band boundary: nothing was removed
     if fn == "makerandCIJdegreesfixed" and not rec["draws"]:
         return None          # no repair switch happened
-    if fn == "makeevenCIJ" and not rec["perm"]:
+    if fn == "makeevenCIJ" and not rec.get("perm_len", len(rec["perm"])):
         return None
     draws = job.get("script") if job.get("script") is not None else job.get("seed")
     return (fn, n, k, str(job.get("inv")), str(job.get("outv")), job.get("mx_lvl"), job.get("sz_cl"),
             job.get("E"), job.get("s"), str(draws))
+
+
+SCALE_CHUNK = 8     # scale-regime records per TLC run
 
 
 MC_QUICK = [("MC_Rand.tla", "MC_Rand_dir4.cfg"), ("MC_Rand.tla", "MC_Rand_und5.cfg"),
@@ -336,8 +466,11 @@ MC_THOROUGH = MC_QUICK + [("MC_Rand.tla", "MC_Rand_und6.cfg"), ("MC_Rand.tla", "
 
 
 def what(job, rec, clause):
-    arg = {k: job[k] for k in ("n", "k", "inv", "outv", "mx_lvl", "E", "sz_cl", "s", "ntype", "dtype", "layout")
+    arg = {k: job[k] for k in ("n", "k", "inv", "outv", "mx_lvl", "E", "sz_cl", "s", "ntype", "dtype", "layout", "src")
            if k in job}
+    for k in ("inv", "outv"):
+        if len(arg.get(k, [])) > 24:
+            arg[k] = "%d degrees, largest %d (see the replay file)" % (len(arg[k]), max(arg[k]))
     return "args=%s raised=%r" % (arg, rec.get("raised"))
 
 
@@ -347,14 +480,44 @@ def run(ctx):
     jobs = behaviour_jobs(ctx)
     nb = len(jobs)
     jobs += seeded_jobs(ctx)
+    # scale regime: separate pool run (longer limit: rejection sampling over 10^5 cells) and TLC
+    # runs of a few records each (a record carries a matrix of up to 512 x 512 cells), concurrently
+    # with the validation of the small records
+    sjobs = scale_jobs(ctx)
+    t0 = time.time()
+    srecs = pool.run_jobs(MOD, sjobs, limit=120.0, procs=12)
+    core.log("  scale regime: %d real calls %.1fs (%d timed out)" % (
+        len(sjobs), time.time() - t0, sum(1 for r in srecs if r.get("timeout"))))
     recs = pool.run_jobs(MOD, jobs, limit=20.0)
-    verdicts = ctx.validate(*TRACE, recs, chunk=4000)
+    live = [r for r in srecs if not r.get("timeout")]
+    parts = [live[lo:lo + SCALE_CHUNK] for lo in range(0, len(live), SCALE_CHUNK)]
+    thunks = [lambda: ctx.validate(*TRACE, recs, chunk=4000)]
+    thunks += [(lambda part=part, t=t: ctx.validate(*TRACE, part, tag="Trace_Generators_scale%d" % t, timeout=3000))
+               for t, part in enumerate(parts)]
+    res = ctx.parallel(thunks, width=4)
+    verdicts = res[0]
+    it = iter([v for part in res[1:] for v in part])
+    sverdicts = [("skip:timeout", "na", "any") if r.get("timeout") else next(it) for r in srecs]
     ctx.judge(jobs, recs, verdicts, what=what)
+    ctx.judge(sjobs, srecs, sverdicts, what=what)
     scripted = [r for r in recs[:nb] if not r.get("timeout")]
     ctx.extra["scripted_behaviours"] = nb
     ctx.extra["scripted_followed"] = sum(1 for r in scripted if r["script_status"] == "followed")
     ctx.extra["scripted_off_script"] = sum(1 for r in scripted if r["script_status"] != "followed")
     ctx.extra["seeded_runs"] = len(jobs) - nb
+    ctx.extra["scale_runs"] = len(sjobs)
+    sc = {}
+    for j, r, v in zip(sjobs, srecs, sverdicts):
+        d = sc.setdefault("%s/%s" % (j["fn"], j["src"][6:]), dict(calls=0, ok=0, skipped=0, timeout=0, n=[], k=[]))
+        d["calls"] += 1
+        d["ok"] += v[0] == "ok"
+        d["skipped"] += v[0].startswith("skip:") and not r.get("timeout")
+        d["timeout"] += bool(r.get("timeout"))
+        d["n"].append(j.get("n", 2 ** j.get("mx_lvl", 0)))
+        d["k"].append(r.get("rep_k") if j["fn"] == "makefractalCIJ" else j.get("k"))
+    ctx.extra["scale_regimes"] = sc
+    n_small = len(jobs)
+    jobs, recs, verdicts = jobs + sjobs, recs + srecs, list(verdicts) + sverdicts
     per_fn = {}
     for j, r, v in zip(jobs, recs, verdicts):
         d = per_fn.setdefault(j["fn"], dict(calls=0, ok=0, skipped=0))
@@ -381,6 +544,10 @@ def run(ctx):
                 "structured ones: circulants, complete, stars, empty, disjoint cliques, DAGs, isolated nodes; "
                 "integer parameters typed as Python or numpy integers, degree vectors as int64/int32/float64, "
                 "contiguous or strided - all drawn from the seeded RNG); "
+                "scale regime: per generator a few seeded calls with 130..450 nodes (256/512 for the hierarchical ones), "
+                "K tiny / just above 2^15 and 2^16 / 10^5..2*10^5 / full, degree pairs of 130..330-node digraphs (random "
+                "sparse to dense, stars and hubs with degrees > 127, circulants, stub counts > 2^15; vectors also typed "
+                "int16/uint8), whole matrices judged by TLC with the same clauses; "
                 "non-trivial = distinct (generator, arguments, draws) that returned and whose result depended on a draw "
                 "(0<K<max, excess removed from the outer band, at least one repair switch, random fill present)")
     if nb:
@@ -389,13 +556,21 @@ def run(ctx):
             if j["fn"] == "makerandCIJdegreesfixed" and j["script"][1:]:
                 ctx.add_sample("scripted-repair-behaviour", dict(job=j, record=r, verdict=list(v)))
                 break
-    ctx.add_sample("seeded-run", dict(job=jobs[-1], record=recs[-1], verdict=list(verdicts[-1])))
+    ctx.add_sample("seeded-run", dict(job=jobs[n_small - 1], record=recs[n_small - 1], verdict=list(verdicts[n_small - 1])))
+    for j, r, v in zip(sjobs, srecs, sverdicts):        # the matrix (10^5 cells) stays in the trace file
+        if j["fn"] == "maketoeplitzCIJ" and j["k"] >= 100000 and not r.get("timeout"):
+            ctx.add_sample("scale-regime-run", dict(job=j, record=dict(r, A="%d x %d cells, omitted" % (r["n"], r["n"])),
+                                                    verdict=list(v)))
+            break
     ctx.assumptions += [
         "connection = non-zero cell; makerandCIJ_und's K counts undirected edges (2K cells); "
         "makeringlatticeCIJ is directed (K cells), band r = cells at circular offset r",
         "makerandCIJdegreesfixed: BCTParamError is accepted only when the intended loop, fed the same draws, "
         "has no switch candidate left (the documented flag = 0 outcome)",
         "maketoeplitzCIJ's documented BCTParamError (10000 unsuccessful draws) is outside the property",
+        "scale-regime records (n > 64): the ring lattice's outer band comes from the closed form of the band capacities "
+        "(ASSUMEd equal to the set-based definition for all n <= 9 in Trace_Generators); no drift replay where the "
+        "permutation has more than 20000 entries or the stub-matching replay more than 2500 draws / 12000 stubs",
         "exhaustive models: rand dir N=4 / und N=5 (thorough: und N=6, dir N=5 with K<=8), ring N<=5 (thorough N<=7), "
         "degree pairs: all of N=3, N=4 with k<=5 (thorough k<=6); beyond that TLC -simulate behaviours only",
     ]
